@@ -103,7 +103,7 @@ func run(c *hc.Ctx) error {
 			kind = "random"
 		case k < 7: // genuine answer
 			ans := r.Bytes(hc.Pick(r, 0, 1, 11, 12, 27, 28, 43, 44, r.Range(0, 600)))
-			rnd := r.Bytes(15)
+			rnd := r.Bytes(31)
 			enc, err := crypto.EncryptExchangeAnswer(bytes.NewReader(rnd), ans, key, iv)
 			line := fmt.Sprintf("enc %s %s %s %s", hc.Hex(rnd), hc.Hex(ans), hc.Hex(key), hc.Hex(iv))
 			if err != nil {
@@ -120,6 +120,15 @@ func run(c *hc.Ctx) error {
 				c.Fail("genuine-answer-not-recovered", line, fmt.Sprintf("err=%v panic=%v got %d bytes", derr, p, len(got)))
 			}
 			kind = "genuine"
+		case k == 8 && r.Chance(50): // genuine answer extended by whole blocks: IGE decrypts the original blocks
+			// unchanged, so the SHA-1 prefix still matches data followed by ≥ 16 bytes of garbage — must be an error
+			ans := r.Bytes(r.Range(0, 200))
+			enc, err := crypto.EncryptExchangeAnswer(r, ans, key, iv)
+			if err != nil {
+				continue
+			}
+			data = append(enc, r.Bytes(16*r.Range(1, 4))...)
+			kind = "extended"
 		case k < 9: // genuine with one flipped bit
 			ans := r.Bytes(r.Range(0, 300))
 			enc, err := crypto.EncryptExchangeAnswer(r, ans, key, iv)
@@ -152,8 +161,17 @@ func run(c *hc.Ctx) error {
 			kind = "near-miss"
 		default: // not block aligned / bad key length
 			data = r.Bytes(r.Range(1, 200))
-			if r.Bool() {
+			switch r.Intn(4) {
+			case 0:
 				key = r.Bytes(hc.Pick(r, 0, 1, 15, 17, 31, 33, 48))
+			case 1: // aligned data, IV of the wrong size: gotd/ige panics by contract (explicit model outcome)
+				data = r.Bytes(16 * r.Range(0, 8))
+				iv = r.Bytes(hc.Pick(r, 0, 16, 31, 33, 64))
+			case 2: // AES-128/192 keys are accepted by aes.NewCipher (monitor only: the executable model is AES-256)
+				key = r.Bytes(hc.Pick(r, 16, 24))
+				if r.Bool() {
+					data = r.Bytes(16 * r.Range(0, 8))
+				}
 			}
 			kind = "malformed"
 		}
@@ -167,6 +185,9 @@ func run(c *hc.Ctx) error {
 		c.Eval(kind+" "+c04shared.Sig(line), kind != "malformed")
 		impl := ""
 		switch {
+		case p != nil && len(iv) != 32:
+			impl = "err panic-iv"
+			c.Count("dec.result=panic-iv")
 		case p != nil:
 			impl = "panic"
 			c.Count("dec.result=panic")
@@ -198,11 +219,13 @@ func run(c *hc.Ctx) error {
 				c.Count("dec.result=ok-data")
 			}
 		}
-		q.Add(line, impl)
+		if len(key) != 16 && len(key) != 24 {
+			q.Add(line, impl)
+		}
 		// GuessDataWithHash on the decrypted bytes / on random bytes
 		if r.Chance(30) {
 			var d []byte
-			if len(key) == 32 && len(data)%16 == 0 && r.Bool() {
+			if len(key) == 32 && len(iv) == 32 && len(data)%16 == 0 && r.Bool() {
 				d = rawDecrypt(data, key, iv)
 			} else {
 				d = r.Bytes(hc.Pick(r, 0, 1, 19, 20, 21, 35, 36, r.Range(0, 100)))
@@ -222,6 +245,9 @@ func run(c *hc.Ctx) error {
 			if g != nil && (len(d) < 20 || !bytes.Equal(sum(g), d[:20])) {
 				c.Fail("guess-unauthenticated", gl, "GuessDataWithHash returned data that does not hash to the prefix")
 			}
+			if g != nil && len(d)-20-len(g) > 15 {
+				c.Fail("guess-strips-more-than-15-bytes", gl, fmt.Sprintf("returned %d bytes of a %d-byte buffer: %d bytes of padding stripped", len(g), len(d), len(d)-20-len(g)))
+			}
 			q.Add(gl, showOpt(g))
 		}
 	}
@@ -232,7 +258,7 @@ func run(c *hc.Ctx) error {
 	c04shared.Concurrently(c, &rt, workers, c.N(2000, 40000)/workers, func(r *hc.RNG, w, i int) {
 		key, iv := r.Bytes(32), r.Bytes(32)
 		ans := r.Bytes(r.Range(0, 300))
-		rnd := r.Bytes(15)
+		rnd := r.Bytes(31)
 		line := fmt.Sprintf("enc %s %s %s %s", hc.Hex(rnd), hc.Hex(ans), hc.Hex(key), hc.Hex(iv))
 		c.Count("concurrent.answer")
 		enc, err := crypto.EncryptExchangeAnswer(bytes.NewReader(rnd), ans, key, iv)
@@ -255,7 +281,7 @@ func run(c *hc.Ctx) error {
 	if err := q.Flush(c); err != nil {
 		return err
 	}
-	c.Res.Rule = "32-byte keys and IVs (3% all-zero each); ciphertexts: 40% random block-aligned 0..4096 bytes incl. empty nil/non-nil (no padding length matches), 30% genuine EncryptExchangeAnswer outputs (answer lengths around the 16-byte alignment), 20% genuine with one flipped ciphertext bit, 5% near misses (one bit of the SHA-1 prefix or of the data flipped before sealing), 5% malformed (unaligned length / bad key length; trivial). distinct = distinct input line"
+	c.Res.Rule = "32-byte keys and IVs (3% all-zero each); ciphertexts: 40% random block-aligned 0..4096 bytes incl. empty nil/non-nil (no padding length matches), 30% genuine EncryptExchangeAnswer outputs (answer lengths around the 16-byte alignment), 20% genuine with one flipped ciphertext bit, 5% near misses (one bit of the SHA-1 prefix or of the data flipped before sealing), 2.5% genuine extended by 1..4 whole random blocks, 5% malformed (unaligned length / bad key length / IV of the wrong size / AES-128/192 keys; trivial). distinct = distinct input line"
 	c.PartialNote("AES-128/192 keys and IVs whose length is not 32 are outside the model (every caller derives 32-byte key and IV with TempAESKeys); a wrong IV length makes gotd/ige panic")
 	return nil
 }
